@@ -549,8 +549,29 @@ def extra_known(ctx):
                     ctx._known.append(e)
 
 
+def wiring_stage(ctx):
+    """The specification's `view` (members known to the coordinator) is what cluster.newConfig wires
+    into pledge as Candidates: all members of the cluster store, whatever their health."""
+    out = ctx.path("wiring.json")
+    rc, text, wall = ctx.go_test("aspen", "./internal/cluster", ["zz_verif_pledgewiring_test.go"], "^TestVerifPledgeWiring$",
+                                 env={"VERIF_OUT": out}, tag="wiring", timeout=600)
+    rows = ctx.read_ndjson(out)
+    if rc != 0 or not rows:
+        raise vlib.Inconclusive("pledge wiring harness failed rc=%s:\n%s" % (rc, text[-2000:]))
+    r = rows[0]
+    if r.get("error"):
+        raise vlib.Inconclusive("pledge wiring harness: %s" % r["error"])
+    if not r.get("ok"):
+        ctx.report("C11 wiring: pledge candidates are not the members known to the node",
+                   "cluster.newConfig: with members %s in the cluster store (healthy, suspect and dead ones), Pledge.Candidates() returns %s: "
+                   "quorums are sized from, and proposed keys are checked against, a subset of the known members" % (r.get("want"), r.get("got")),
+                   {"layer": "wiring", "row": r})
+    return r
+
+
 def run(ctx):
     extra_known(ctx)
+    wiring = wiring_stage(ctx)
     thorough = ctx.tier == "thorough"
     rnd = random.Random(ctx.seed)
     states = trans = 0
